@@ -895,7 +895,7 @@ func filter(s *scope, args []pyObject) pyObject {
 	s.Assert(isFunc, "Argument filter must be callable, not %s", args[0].Type())
 	s.Assert(isList, "Argument seq must be a list, not %s", args[1].Type())
 
-	var ret pyList
+	ret := pyList{} // not nil, which would be serialised as null rather than []
 	for _, li := range l {
 		c := &Call{
 			Arguments: []CallArgument{{
